@@ -100,9 +100,30 @@ func check(id, tier, repo, verif, onlyCfg string) (code int) {
 		fn(prog, rep)
 	}
 	// positive controls: every engine used by this property must classify its fixtures.
-	if err := props.Controls(id, filepath.Join(verif, "sa", "testdata")); err != nil {
+	if err := props.Controls(id, filepath.Join(props.VerifDir, "sa", "testdata")); err != nil {
 		fmt.Fprintf(os.Stderr, "verifsa: positive control failed: %v\n", err)
 		return 2
+	}
+	if os.Getenv("VERIFSA_CHILD") == "" && (tier == "thorough" && repo == "/repo" || os.Getenv("VERIF_SELFTEST") == "1") {
+		results, err := selfTest(id, repo, props.VerifDir)
+		if err != nil {
+			fmt.Fprintf(os.Stderr, "verifsa: sensitivity self-test could not run: %v\n", err)
+			return 2
+		}
+		missed := 0
+		for _, mr := range results {
+			rep.Count("selftest_"+mr.Status, 1)
+			fmt.Printf("selftest %s/%s: %s %s\n", id, mr.Spec.Name, mr.Status, mr.Reported)
+			if mr.Status == "missed" {
+				missed++
+			}
+		}
+		rep.Count("selftest_mutants", len(results))
+		if missed > 0 {
+			fmt.Fprintf(os.Stderr, "verifsa: sensitivity self-test failed: %d frozen mutants of %s were applied, compile, and were not reported; the checker (not /repo) is defective\n", missed, id)
+			rep.Finish(verif, start, seed)
+			return 2
+		}
 	}
 	return rep.Finish(verif, start, seed)
 }
